@@ -104,10 +104,14 @@ class LogfileHandler(mlzlog.LogfileHandler):
     def doRollover(self):
         super().doRollover()
         if self.max_days:
-            # keep only the last max_days files
+            # keep only the last max_days files (including the one just opened)
+            prefix = self.rootname + '-'
             with os.scandir(dirname(self.baseFilename)) as it:
-                files = sorted(entry.path for entry in it if entry.name != 'current')
-            for filepath in files[-self.max_days:]:
+                # only our own log files: no subdirectories of child loggers, no foreign files
+                files = sorted(entry.path for entry in it
+                               if entry.name.startswith(prefix) and entry.name.endswith('.log')
+                               and entry.is_file(follow_symlinks=False))
+            for filepath in files[:-self.max_days]:
                 os.remove(filepath)
 
 
